@@ -34,9 +34,9 @@ register("C16",
          "Machine-checked Coq theorems about Parameter.format_value as translated from parameter.py on every run: for EVERY string/date value the result is exactly one SQL string literal whose decoded content is the value, in any context (C16_string, C16_date); "
          "accepted numbers are numeric literals and NaN/inf are rejected (C16_number); unquoted values consist of identifier characters; yesno is TRUE/FALSE. "
          "The translated function is evaluated inside Coq against the real one on a hostile corpus; the implementation's output is tokenised by sqlglot, executed by DuckDB and compared as a tree through compile(). "
-         "Partial for interpolate()/Jinja/relative-date/dialects: those are exercised end to end only; 4 narrow known-finding classes are listed.",
-         "Trusted: Coq kernel; gen_params translator (validated each run); oracles z_repr/float_parse/isalnum_char as Section variables with the stated premises; hand-written SQL lexer (Model/SqlLex.v) tied to sqlglot/DuckDB by correspondence. No axioms.",
-         "Coq proof over translator-regenerated format_value + lexer model; differential test vs sqlglot/DuckDB", "DESIGN.md section 6/C16")
+         "Partial for interpolate()/Jinja/relative-date/dialects: those are exercised end to end only; 4 narrow known-finding classes are listed. Regenerated on every run: what ParameterSet.interpolate returns on 40 scripted templates x values (one-pass substitution model, C16_interpolate_table); C16_filter_one_literal: text + exactly one literal + text for every value and context.",
+         "Trusted: translator/pyinterp.py + gen_interp.py (fail-closed, scripted re / template modules, validated against CPython each run); Coq kernel; gen_params translator (validated each run); oracles z_repr/float_parse/isalnum_char as Section variables with the stated premises; hand-written SQL lexer (Model/SqlLex.v) tied to sqlglot/DuckDB by correspondence. No axioms.",
+         "Coq proof over translator-regenerated format_value + lexer model; differential test vs sqlglot/DuckDB; translator-regenerated interpolation table", "DESIGN.md section 6/C16")
 
 register("C19",
          "Machine-checked Coq theorem C19_safe: for the shared-state access skeleton extracted from semantic_graph.py on this run (obligation C19_prog: it equals the build-locally/publish-once/snapshot-once program), "
@@ -78,17 +78,17 @@ register("C03",
          "Machine-checked Coq theorems about the multi-fact form for sub-query results of ANY size: the FULL OUTER JOIN (NULL-safe dimension equality, COALESCE) of two key-unique sub-results has exactly the union of their groups, each once (C03_union), "
          "and every value of either sub-query appears unchanged in its group's row, NULL-padded where the other side lacks the group (C03_values_*); the exact shape of the join is characterised without any uniqueness hypothesis; the three-way chain is refuted by witnesses. "
          "Model/MultiFact.v (sub-query per metric model reusing the C02 plan/join model, join chain, filter partitioning) is hand-written and tied to the code by executing joint queries on both; the oracle is the property's own observation: "
-         "the full outer join of the IMPLEMENTATION's single-metric results. Known-finding classes K1 (filter on a metric model), K2 (filter on a non-metric model -> binder error), K4 (metrics of two models joined one_to_one are not split).",
-         "Trusted: Coq kernel; Model/MultiFact.v hand-written, tied by differential testing; DuckDB as oracle. The theorems cover the outer join; that each sub-query equals the single-metric query is by construction of the code (same generate() call) and checked by the oracle. No axioms.",
-         "Coq proof about the outer-join combinator + model/implementation correspondence; oracle from the implementation's own single-metric queries", "DESIGN.md section 6/C03")
+         "the full outer join of the IMPLEMENTATION's single-metric results. Known-finding classes K1 (filter on a metric model), K2 (filter on a non-metric model -> binder error), K4 (metrics of two models joined one_to_one are not split). Regenerated on every run: the verdict table of _needs_preaggregation_for_fanout (2744 scripted scenarios), proved equal to the decision function and to the planning model's needs_multifact for any graph and query (C03_multifact_table, C03_multifact_is_plan_decision).",
+         "Trusted: translator/pyinterp.py + gen_multifact.py (fail-closed definitional interpreter, validated against CPython each run); Coq kernel; Model/MultiFact.v hand-written, tied by differential testing; DuckDB as oracle. The theorems cover the outer join; that each sub-query equals the single-metric query is by construction of the code (same generate() call) and checked by the oracle. No axioms.",
+         "Coq proof about the outer-join combinator + model/implementation correspondence; oracle from the implementation's own single-metric queries; translator-regenerated verdict table of the multi-fact decision", "DESIGN.md section 6/C03")
 
 register("C04",
          "Machine-checked Coq theorems: one conjunction = several filters = any order = applied one after the other under SQL three-valued logic (C04_conj/order/sequential, any filter list, any table); "
          "pushing a filter into the joined model's sub-query and INNER-joining it equals joining all rows and keeping the wide rows whose slot satisfies the filter (C04_pushdown, any wide-row bag); after an INNER step every wide row is connected to a row of the filtered model and later steps keep that slot (semi-join reading); "
          "a metric's own filters touch only its column. Tied to the code through the C02 plan/join model executed on filtered queries, and by metamorphic runs on the implementation: list / one conjunction / reversed / segment with {model} / segment with bare columns must agree, "
-         "a metric-value filter must equal post-filtering, a metric filter must not change other metrics. Partial: segment resolution, the text-level model.field rewriting and relative dates are exercised end to end only.",
-         "Trusted: Coq kernel; Model/Sem.v, Model/Join.v, Model/Plan.v hand-written (tied by differential testing); sqlglot parse/print of filters as oracle; the C02 finding classes K1/K2 exempt the affected metric columns. No axioms.",
-         "Coq proofs about 3VL filters and join-step pushdown; metamorphic + model/implementation correspondence", "DESIGN.md section 6/C04")
+         "a metric-value filter must equal post-filtering, a metric filter must not change other metrics. Partial: segment resolution, the text-level model.field rewriting and relative dates are exercised end to end only. Regenerated on every run: how _classify_filters_for_pushdown distributes 141 scripted filter lists (scripted sqlglot trees); C04_classify_table (model == code) and C04_classify_sound (a pushed-down conjunct only mentions columns of its model, no metric).",
+         "Trusted: translator/pyinterp.py + gen_classify.py (fail-closed, validated against CPython each run; sqlglot's parse trees are scripted); Coq kernel; Model/Sem.v, Model/Join.v, Model/Plan.v hand-written (tied by differential testing); sqlglot parse/print of filters as oracle; the C02 finding classes K1/K2 exempt the affected metric columns. No axioms.",
+         "Coq proofs about 3VL filters and join-step pushdown; metamorphic + model/implementation correspondence; translator-regenerated pushdown classification table", "DESIGN.md section 6/C04")
 
 register("C15",
          "Machine-checked Coq: C15_sites, a generated obligation over the list of every iteration over a set-typed value in generator.py (re-extracted from the source on every run): none is order-sensitive and unsorted; "
@@ -103,9 +103,9 @@ register("C07",
          "Machine-checked Coq theorems for EVERY timestamp (Z microseconds, unbounded): truncation to hour/day/ISO week/month/quarter/year is the floor onto the bucket starts (C07_floor; era-periodicity lemmas + one exhaustive 400-year sweep lifted to all Z); "
          "additive roll-up of SUM and COUNT from any nested finer granularity for every table (C07_additive_*; from floor composition + a regrouping lemma); the default-time-dimension step keeps requested dimensions and adds only a model's default time dimension, only with a requested metric and no requested time dimension; "
          "a granularity on a non-time field is an error. Grouping by several granularities is an instance of C01_rows. Ties: extracted calendar vs DuckDB DATE_TRUNC on calendar edges (thorough: every hour of a 28-year cycle); time-granularity queries vs the Single model; "
-         "the default-dimension function vs its model; additivity and the iff re-checked directly on the implementation.",
-         "Trusted: Coq kernel (vm_compute sweeps); Base/Calendar.v hand-written, tied to DuckDB by correspondence; Model/TimeDim.v hand-written model; extraction (ExtrOcamlBasic). Only the completeness half of the default-dimension iff is checked by the oracle rather than proved. No axioms.",
-         "Coq proof (calendar floor for all Z, regrouping induction) + correspondence vs DuckDB and the generator", "DESIGN.md section 6/C07")
+         "the default-dimension function vs its model; additivity and the iff re-checked directly on the implementation. Regenerated on every run: what _apply_default_time_dimensions returns on 1008 scripted scenarios; C07_default_table proves the model returns the same list on each.",
+         "Trusted: translator/pyinterp.py + gen_timedim.py (fail-closed, validated against CPython each run); Coq kernel (vm_compute sweeps); Base/Calendar.v hand-written, tied to DuckDB by correspondence; Model/TimeDim.v hand-written model; extraction (ExtrOcamlBasic). Only the completeness half of the default-dimension iff is checked by the oracle rather than proved. No axioms.",
+         "Coq proof (calendar floor for all Z, regrouping induction) + correspondence vs DuckDB and the generator; translator-regenerated behaviour table of the default-time-dimension step", "DESIGN.md section 6/C07")
 
 register("C17",
          "Machine-checked Coq theorems for inner results of ANY length and any number of groups: a cumulative metric's window value at period t, within each combination of the other requested dimensions separately, is its aggregate over exactly "
@@ -124,9 +124,9 @@ register("C08",
          "the code's `_is_measure_derivable`, REGENERATED from preagg_matcher.py on every run, admits a metric only without own filters, listed in the rollup, with sum/count/min/max, or avg with a count measure (C08_derivable_sound); "
          "witnesses show why median/stddev, filtered measures, AVG-stored-as-AVG and raw-timestamp filters must not be routed. Tied to the code by executing generated rollups/queries: compile(use_preaggregations=True) vs False on a database whose "
          "rollups were built with the layer's own statement, every routing decision audited against the Coq criterion `exactly_derivable`, and Model/Preagg evaluated in Coq against the routed rows. "
-         "Partial: the routing decision procedure (can_satisfy_query, filter-column extraction, scoring) is audited on generated cases, not modelled; known-finding classes K3 (avg), K6 (raw time filter), K8 (count over no rows).",
-         "Trusted: Coq kernel; gen_derivable / gen_grancompat translators (fail-closed, validated each run); Model/Preagg.v hand-written (one coded dimension and non-NULL integer values stand for the dimension tuple / measure values), tied by differential testing; DuckDB as oracle. No axioms.",
-         "Coq proof (regrouping of decomposable aggregates over a partition, semilattice fold for min/max, calendar nesting) over a hand-written rollup model + translator-regenerated derivability; routed-vs-unrouted execution and decision audit", "DESIGN.md section 6/C08")
+         "Partial: the routing decision procedure (can_satisfy_query, filter-column extraction, scoring) is audited on generated cases, not modelled; known-finding classes K3 (avg), K6 (raw time filter), K8 (count over no rows). Regenerated on every run: the verdicts of can_satisfy_query on 1920 scripted scenarios; C08_matcher_table (model == code) and C08_matcher_sound (an admitted query only uses rollup columns, derivable metrics and a passed granularity test).",
+         "Trusted: translator/pyinterp.py + gen_satisfy.py (fail-closed, validated against CPython each run); Coq kernel; gen_derivable / gen_grancompat translators (fail-closed, validated each run); Model/Preagg.v hand-written (one coded dimension and non-NULL integer values stand for the dimension tuple / measure values), tied by differential testing; DuckDB as oracle. No axioms.",
+         "Coq proof (regrouping of decomposable aggregates over a partition, semilattice fold for min/max, calendar nesting) over a hand-written rollup model + translator-regenerated derivability; routed-vs-unrouted execution and decision audit; translator-regenerated matcher verdict table", "DESIGN.md section 6/C08")
 
 register("C06",
          "Machine-checked Coq theorems for formulas of ANY nesting depth and any component names: the value of a formula whose references were replaced by the components' formulas is the formula applied to the components' values (C06_compositional, SQL NULL semantics); "
@@ -144,9 +144,9 @@ register("C20",
          "an accepted query resolves all references and only touches joinable models; removing '_cte' recovers the model name from its CTE alias for every name that does not contain '_cte' (C20_cte_inverse), and not otherwise (refuted by witness). "
          "Model/Valid.v is hand-written and tied by comparing the error kinds of the real validate_query on generated graphs and reference lists; compile() must raise QueryValidationError exactly when errors are reported. "
          "Partial: 'accepted definitions are usable' is decided by executing every single-field query (12-13 per definition) of generated accepted definitions with adversarial legal names on a table with the declared columns -- an executed check, not a theorem; "
-         "six narrow known-finding classes (K1 _cte in model names, K2 keywords, K3 <measure>_raw dimension, K4 model names needing quotes, K5 fields named like raw columns used by inline expressions / segments, K6 '__' in a dimension name).",
-         "Trusted: Coq kernel; Model/Valid.v hand-written (tied by differential testing), reusing Model/Graph.v; DuckDB decides 'executes without error'; validate_model / validate_metric / pydantic constraints are exercised (registration must not raise for the generated definitions), not modelled. No axioms.",
-         "Coq proof (membership lemmas over the validation function, C10 path-search completeness, string lemma for _cte) + model/implementation correspondence; executed single-field queries", "DESIGN.md section 6/C20")
+         "six narrow known-finding classes (K1 _cte in model names, K2 keywords, K3 <measure>_raw dimension, K4 model names needing quotes, K5 fields named like raw columns used by inline expressions / segments, K6 '__' in a dimension name). Regenerated on every run: the errors validate_query reports on 154 scripted scenarios; C20_validate_table proves the validation model reports the same errors.",
+         "Trusted: translator/pyinterp.py + gen_validate.py (fail-closed, validated against CPython each run; the error-text classifier is trusted); Coq kernel; Model/Valid.v hand-written (tied by differential testing), reusing Model/Graph.v; DuckDB decides 'executes without error'; validate_model / validate_metric / pydantic constraints are exercised (registration must not raise for the generated definitions), not modelled. No axioms.",
+         "Coq proof (membership lemmas over the validation function, C10 path-search completeness, string lemma for _cte) + model/implementation correspondence; executed single-field queries; translator-regenerated validation error table", "DESIGN.md section 6/C20")
 
 register("C05",
          "Machine-checked Coq theorems for SELECT trees with ANY number of fields and filters: every rendering of a structured query -- FROM a model or FROM metrics with model-qualified names, or a single-model query with unqualified names; "
